@@ -1,6 +1,6 @@
 """what MANIFEST.json claims per property (tools/mkmanifest.py turns this into the manifest)"""
 
-FIX_COMMITS = ['0369c7c', 'e5963ae', '7c0fb30']
+FIX_COMMITS = ['0369c7c', 'e5963ae', '7c0fb30', '7b59f02']
 
 _NOTE = ('bounded: holds for every value of the symbolic inputs inside the boxes and sizes '
          'listed in the evidence file, nothing is claimed outside; trusted: CPython, z3, the '
@@ -16,6 +16,37 @@ CLAIMS = {
                 'an independent clock model and the loop-level clock obligations. Coincidences '
                 'of dates are single points a test would have to guess; here they are branch '
                 'outcomes that are always explored.',
+        'note': _NOTE,
+    },
+    'C04': {
+        'text': 'Every exit cause of a scope (normal, body raises, child fails, until by date or '
+                'flag, owner task cancelled, owner closed by an enclosing failure) strikes at a '
+                'symbolic instant (c,p) relative to symbolic child durations; the solver closes '
+                'the path set over all orderings/coincidences, each path proves containment from '
+                'the log written by the tasks themselves (no task code after exit, all done, late '
+                'spawn awaited, volatile closed last, late do() refused).',
+        'note': _NOTE,
+    },
+    'C05': {
+        'text': 'Failure dates and kinds of body and up to 3 children are symbolic / finite '
+                'choices; every coincidence (simultaneous failures, failure during graceful '
+                'shutdown, body and child failing in one step) is a solver-explored branch; the '
+                'outcome of the block is compared by identity and order with the exceptions the '
+                'program logged before raising them.',
+        'note': _NOTE,
+    },
+    'C06': {
+        'text': 'cancel(token) is issued at a symbolic instant (c,p) from an activity placed '
+                'before or after the victim, against symbolic sleep lengths and start delay; '
+                'awaiters start at symbolic dates; task.status is sampled at every activation. '
+                'All orderings of these dates are closed by the solver.',
+        'note': _NOTE,
+    },
+    'C07': {
+        'text': 'Ten kinds of notification with symbolic parameters (dates before/at/after the '
+                'entry), symbolic body/child durations, nested until-blocks and run(till=T): each '
+                'path proves exit == min(trigger model, completion) and that later waits are '
+                'exact; the trigger model is the independent clock model of C01.',
         'note': _NOTE,
     },
 }
